@@ -30,6 +30,7 @@ from asl.loader import AnalysisError, norm, own_nodes
 from asl.values import atoms_deep
 from .c02 import _IntOps
 from .common import raised_class
+from .common import present_units as _present
 
 LEVEL = {
     "decided": "C01 (necessary clauses): (R01.1) merge pops the smaller (resp. larger) head and breaks ties in favour "
@@ -342,7 +343,7 @@ def r01_9(ctx) -> None:
     from asl.flow import find_path, live_nodes, pretty_path
     from .c05 import pull_nodes
     ctx.rule("R01.9", "every yield of a tool is reachable; one-to-one tools yield between consecutive pulls")
-    for short in PASS_THROUGH + TRANSFORMING:
+    for short in _present(ctx, PASS_THROUGH + TRANSFORMING):
         u = ctx.inlined(ctx.unit(short))
         cfg = cfg_of(u)
         alive = live_nodes(cfg)
@@ -514,7 +515,7 @@ def r01_5(ctx) -> None:
 # --------------------------------------------------------------------------- R01.2
 def r01_2(ctx) -> None:
     seen: Dict = {}
-    for short in PASS_THROUGH + TRANSFORMING + ["builtins.iter", "heapq._KeyIter.from_iters",
+    for short in _present(ctx, PASS_THROUGH + TRANSFORMING) + ["builtins.iter", "heapq._KeyIter.from_iters",
                                                "itertools.Tee.__init__", "itertools.chain.__init__"]:
         u = ctx.inlined(ctx.unit(short))  # an error may be raised from a private helper of the tool
         for r in own_nodes(u.node):
@@ -563,7 +564,7 @@ def _allowed(ctx, atom, unit_short: str, transforming: bool, depth: int = 0) -> 
 
 
 def r01_3(ctx) -> None:
-    for short in PASS_THROUGH + TRANSFORMING:
+    for short in _present(ctx, PASS_THROUGH + TRANSFORMING):
         u = ctx.unit(short)
         cfg = cfg_of(u)
         transforming = short in TRANSFORMING
